@@ -65,7 +65,7 @@ def main_explore(pid, tier, seed, m, mutation_only=False, extra_oracle=None):
             for f in o["fields"]:
                 coord = f"{o['name']}.{f['name']}"
                 if coord not in renv["resolvers"] and rng.random() < 0.35:
-                    renv["resolvers"][coord] = {"k": "const", "v": sg.value_for(f["type"], 3, 0.05)} if rng.random() < 0.7 else {"k": "raise", "v": {"x": False, "m": "nested boom", "e": []}}
+                    renv["resolvers"][coord] = {"k": "const", "v": sg.value_for(f["type"], 3, 0.05)} if rng.random() < 0.7 else {"k": "raise", "v": ({"x": False, "m": "nested boom", "e": []} if rng.random() < 0.6 else {"x": False, "m": "timed out", "e": [], "cls": "TimeoutError"})}
         mixed = [] if mutation_only else sg.mixed_scenario(renv)
         if mixed:
             # the merged composite field gets a gated resolver on every runtime type: its completion order is scheduled
